@@ -1929,6 +1929,99 @@ class Thrower(SeqKind):
         return 0
 
 
+class _StopBlock(py4hw.Logic):
+    """a clocked bench block that ends the run from inside its clock() method (a break point on a condition): when its own
+    edge counter reaches `at` it asks the simulator of its system to stop"""
+
+    def __init__(self, parent, name, a, r):
+        super().__init__(parent, name)
+        self.a = self.addIn('a', a)
+        self.r = self.addOut('r', r)
+        self.edges = 0
+        self._at = None
+
+    def clock(self):
+        self.edges += 1
+        if self._at is not None and self.edges == self._at:
+            top = self
+            while top.parent is not None:
+                top = top.parent
+            top.getSimulator().stop()
+        self.r.prepare(self.a.get())
+
+
+@register
+class StopBlock(SeqKind):
+    name = 'StopBlock'
+    tags = ('seq', 'extra', 'simonly', 'userblock', 'manual', 'simpeek')
+
+    def plan(self, rng, pool):
+        a, w = pool.any()
+        return {}, [a], [w]
+
+    def build(self, parent, nm, ins, outs, p):
+        return _StopBlock(parent, nm, ins[0], outs[0])
+
+    def init(self, p, iw, ow):
+        return 0
+
+    def outs(self, p, st, iv, iw, ow):
+        return [st]
+
+    def nxt(self, p, st, iv, iw, ow):
+        return M(iv[0], ow[0])
+
+
+class _TernaryReg(py4hw.Logic):
+    """behavioural register with a conditional expression: r <= a if s else b"""
+
+    def __init__(self, parent, name, s, a, b, r):
+        super().__init__(parent, name)
+        self.s = self.addIn('s', s)
+        self.a = self.addIn('a', a)
+        self.b = self.addIn('b', b)
+        self.r = self.addOut('r', r)
+
+    def clock(self):
+        v = self.a.get() if self.s.get() else self.b.get()
+        self.r.prepare(v)
+
+
+class _TernaryInCall(py4hw.Logic):
+    """a block the transpiler refuses: a conditional expression as the argument of a call"""
+
+    def __init__(self, parent, name, s, r):
+        super().__init__(parent, name)
+        self.s = self.addIn('s', s)
+        self.r = self.addOut('r', r)
+
+    def clock(self):
+        self.r.prepare(1 if self.s.get() else 0)
+
+
+@register
+class TernaryReg(SeqKind):
+    name = 'TernaryReg'
+    tags = ('seq', 'extra', 'userblock', 'transpiled', 'ternary')
+    weight = 0.8
+
+    def plan(self, rng, pool):
+        a, w = pool.any(1, 31)
+        return {}, [pool.pick(1)[0], a, pool.pick(w)[0]], [w]
+
+    def build(self, parent, nm, ins, outs, p):
+        return _TernaryReg(parent, nm, ins[0], ins[1], ins[2], outs[0])
+
+    def init(self, p, iw, ow):
+        return 0
+
+    def outs(self, p, st, iv, iw, ow):
+        return [st]
+
+    def nxt(self, p, st, iv, iw, ow):
+        return M(iv[1] if iv[0] else iv[2], ow[0])
+
+
 class _PickyInc(py4hw.Logic):
     """a user block that validates its input: r = a + 1, but the value `bad` is refused with an exception"""
 
